@@ -153,9 +153,10 @@ def run(ctx, prog):
         fn, ents, other = cat.entries(prog, scalar)
         lists[scalar] = [cat.short(c) for c, _, _ in ents]
         ctx.floor('catalogue_entries<%s>' % scalar, len(ents), 37)
-        extra = [s for s in other if not (s.get('k') == 'return' and int_value(s['e']) == 0)]
+        extra = list(other)
         ctx.ob('C14.K1', 'only-registrations|' + scalar, not extra, fn.where,
-               'get_list_mms contains a statement that is not a registration: %s' % (extra[0].get('l') if extra else ''), sample='%d push_back(new X)' % len(ents))
+               'get_list_mms does something besides listing freshly created solutions: %s at %s' % ((extra[0].get('what'), extra[0].get('l')) if extra else ('', '')),
+               sample='%d freshly created objects listed, no other effect' % len(ents))
     ctx.ob('C14.K1', 'same-lists', lists['double'] == lists['long double'], 'src/masa_core.cpp',
            'catalogues differ between double and long double: %s' % sorted(set(lists['double']) ^ set(lists['long double'])),
            sample=lists['double'][:5])
